@@ -262,6 +262,7 @@ class Run:
         simgrpc.SimChannel._next = 0
         simgrpc._task_seq[0] = 0
         kind = sc["client"]
+        log_restore = self._debug_logging() if sc.get("debug_logging") else None
         try:
             if kind == "async":
                 simloop.run(self._run_async)
@@ -276,7 +277,34 @@ class Run:
                                      "k": "runaway", "op": CURRENT_OP.get(), "msg": str(e)})
         finally:
             CLOCK.on_sleep = None
+            if log_restore is not None:
+                log_restore()
         return self.sim.history
+
+    def _debug_logging(self):
+        """DEBUG logging on the emitted package's logger, with a handler that really formats every record."""
+        import logging
+        lg = logging.getLogger(self.world.root_name.split(".")[0])
+        old_level, old_prop = lg.level, lg.propagate
+        count = [0]
+
+        class _H(logging.Handler):
+            def emit(self, rec):
+                count[0] += 1
+                rec.getMessage()
+                str(rec.__dict__.get("httpRequest", "")) + str(rec.__dict__.get("httpResponse", "")) + str(rec.__dict__.get("rpcName", ""))
+        h = _H()
+        lg.addHandler(h)
+        lg.setLevel(logging.DEBUG)
+        lg.propagate = False
+
+        def restore():
+            lg.removeHandler(h)
+            lg.setLevel(old_level)
+            lg.propagate = old_prop
+            self.sim.max_events += 1
+            self.sim.history.append({"seq": len(self.sim.history), "t": round(CLOCK.now - simclock.EPOCH, 6), "k": "log_records", "n": count[0]})
+        return restore
 
     def _sync_client(self, service, kind, actor=0):
         key = (service, kind, actor if self.sc.get("clients") == "per_actor" else 0)
